@@ -188,6 +188,10 @@ class Evolver:
                 inner = self.simple_type(depth + 1, allow_literal)
             items = [inner, {"kind": "base", "name": "null"}]
             return {"kind": "or", "items": items if k == "ornull-last" else items[::-1]}
+        if k == "ornull-string-literal":
+            lit = {"kind": "stringLiteral", "value": "vf" + self.pick(WORDS_U)}
+            items = [lit, {"kind": "base", "name": "null"}]
+            return {"kind": "or", "items": items if self.draw(st.booleans()) else items[::-1]}
         if k == "base":
             return {"kind": "base", "name": self.pick(BASES)}
         if k == "ref-struct":
@@ -349,7 +353,7 @@ class Evolver:
     RUST_AND_PYTHON_KEYWORDS = ["in", "for", "as", "if", "else", "while", "continue", "break", "return", "async", "await", "try", "yield"]
 
     MATRIX_PRODUCTIONS = ["base", "ref-struct", "ref-enum", "ref-alias", "array", "map", "tuple", "ornull-first", "ornull-last", "literal",
-                          "array-literal", "ornull-literal", "array-ornull", "map-ornull", "string-literal", "ornull-array-literal", "map-intkey", "map-enumkey"]
+                          "array-literal", "ornull-literal", "array-ornull", "map-ornull", "string-literal", "ornull-array-literal", "map-intkey", "map-enumkey", "ornull-string-literal"]
 
     def e_matrix(self) -> None:
         """new structures whose properties cover every pair (name kind x type production x required/optional):
